@@ -53,6 +53,10 @@ func runBounded(w *World, prop, tier string, seed int, dir string) []*BoundedRes
 				h[m[1]] = strings.TrimSpace(m[2])
 			}
 		}
+		if hasProp(strings.Fields(h["prop"]), "ALL") {
+			sel = append(sel, f) // shared helpers, no sub-checks of their own
+			continue
+		}
 		if !hasProp(strings.Fields(h["prop"]), prop) {
 			continue
 		}
@@ -66,7 +70,7 @@ func runBounded(w *World, prop, tier string, seed int, dir string) []*BoundedRes
 			order = append(order, br)
 		}
 	}
-	if len(sel) == 0 {
+	if len(order) == 0 {
 		return nil
 	}
 	os.Setenv("VERIF_SEED", strconv.Itoa(seed))
